@@ -702,7 +702,7 @@ func TestRequestLineGrid(t *testing.T) {
 	n, refused := 0, 0
 	methods := append([]string{"GET"}, reqgen.BadMethods...)
 	var versions []string
-	for _, l := range [][]string{reqgen.GoodVersions, reqgen.LowVersions, reqgen.MalformedVersions, reqgen.OpenVersions} {
+	for _, l := range [][]string{reqgen.GoodVersions, reqgen.LowVersions, reqgen.MalformedVersions, reqgen.OpenVersions, reqgen.NotOneVersions} {
 		versions = append(versions, l...)
 	}
 	// every single byte in place of the minor version, of the major version, and after a valid version
@@ -997,6 +997,11 @@ func TestModelTables(t *testing.T) {
 			t.Errorf("malformed version %q: %v", ver, k)
 		}
 	}
+	for _, ver := range reqgen.NotOneVersions {
+		if k, _, _ := reqgen.ParseVersion(ver); k != reqgen.VersionMajorNotOne {
+			t.Errorf("version %q (major is not 1): %v", ver, k)
+		}
+	}
 	for _, ver := range reqgen.OpenVersions {
 		if k, _, _ := reqgen.ParseVersion(ver); k != reqgen.VersionLeadingZero && k != reqgen.VersionHuge {
 			t.Errorf("open version %q: %v", ver, k)
@@ -1218,7 +1223,7 @@ func fuzzInvariants(data []byte) string {
 			return fmt.Sprintf("Upgrader: success for request line %q (method is not GET)", reqLine)
 		}
 		k, major, minor := reqgen.ParseVersion(strings.Join(f[2:], " "))
-		if k == reqgen.VersionMalformed || (k != reqgen.VersionHuge && (major != 1 || minor < 1)) {
+		if k == reqgen.VersionMalformed || k == reqgen.VersionMajorNotOne || (k != reqgen.VersionHuge && (major != 1 || minor < 1)) {
 			return fmt.Sprintf("Upgrader: success for request line %q (version is not HTTP/1.x, x >= 1, in digits)", reqLine)
 		}
 		for _, n := range reqgen.RequiredNames {
@@ -1255,7 +1260,7 @@ func fuzzSeeds() [][]byte {
 	add := func(r *reqgen.Request) { out = append(out, r.Render()) }
 	add(v)
 	add(v.Clone().Add(reqgen.NameProtocol, "superchat, chat").Add(reqgen.NameExtensions, "permessage-deflate; client_max_window_bits, x-a; p=1"))
-	for _, ver := range []string{"HTTP/1.0", "HTTP/1.:", "HTTP/1.10", "HTTP/2.0", "HTTP/1.01"} {
+	for _, ver := range []string{"HTTP/1.0", "HTTP/1.:", "HTTP/1.10", "HTTP/2.0", "HTTP/1.01", "HTTP/18446744073709551617.1", "HTTP/1.18446744073709551617"} {
 		r := v.Clone()
 		r.Version = ver
 		add(r)
